@@ -1,5 +1,7 @@
 import HcipyVerif.Model.FftWeights
 import HcipyVerif.Model.Nft
+import HcipyVerif.Model.Multiplex
+import HcipyVerif.Model.MftState
 import HcipyVerif.Model.Proto
 import HcipyVerif.Model.FftGrid
 import HcipyVerif.Model.FftIndex
@@ -319,6 +321,24 @@ def step (st : St) : List String → St × String
       if xs.isEmpty || xs.length != us.length || xs.any (·.length != n) || us.any (·.length != m) ||
           w.length != (if fwd then n else m) || j ≥ (if fwd then n else m) then (st, "err value") else
       (st, "ok " ++ showPSums (nftImpulse fwd (path == "mat") xs us w j))
+    | _, _, _, _ => (st, "bad-op")
+  | ["mux", dir, path, xss, uss, ws, tss, t, j] =>
+    match parseRatLists? xss, parseRatLists? uss, parseRatList? ws, parseNatList? tss, parseNat? t, parseNat? j with
+    | some xs, some us, some w, some ts, some t, some j =>
+      if (dir != "fwd" && dir != "bwd") || (path != "mat" && path != "fly") then (st, "bad-op") else
+      let n := (xs.headD []).length
+      let m := (us.headD []).length
+      let fwd := dir == "fwd"
+      if xs.isEmpty || xs.length != us.length || xs.any (·.length != n) || us.any (·.length != m) || n = 0 || m = 0 ||
+          w.length != (if fwd then n else m) || j ≥ (if fwd then n else m) || t ≥ tensorSize ts then (st, "err value") else
+      (st, "ok " ++ showPSums (multiplexNftImpulse fwd (path == "mat") xs us w ts t j))
+    | _, _, _, _, _, _ => (st, "bad-op")
+  | ["mftstate", pre, alloc, ndim, dss] =>
+    match parseBool? pre, parseBool? alloc, parseNat? ndim, parseNatList? dss with
+    | some pre, some alloc, some ndim, some ds =>
+      if (ndim != 1 && ndim != 2) || ds.any (· > 1) then (st, "err value") else
+      let ps : List Prec := ds.map fun d => if d == 0 then Prec.single else Prec.double
+      (st, "ok " ++ " ".intercalate (mftTrace ⟨pre, alloc, ndim⟩ ps))
     | _, _, _, _ => (st, "bad-op")
   | ["load", sh, N, M, bufs, fs] =>
     match parseBool? sh, parseNat? N, parseNat? M, parseRatList? bufs, parseRatList? fs with
